@@ -72,15 +72,16 @@ static void op_store(int k,std::vector<int> const &ts,int dl)
 	stats(j); tr.line(j.str());
 }
 // store with a value of a given size (process-shared: up to beyond the segment)
-static void op_bigstore(int k,int dl,size_t size)
+static void op_bigstore(int k,int dl,size_t size,std::vector<int> const &ts=std::vector<int>())
 {
 	std::set<std::string> trig;
+	for(size_t i=0;i<ts.size();i++) trig.insert(nm(ts[i]));
 	long id=++vcounter;
 	char b[32]; snprintf(b,sizeof(b),"B%ld;",id);
 	std::string v=b; if(v.size()<size) v.append(size-v.size(),char('a'+id%26));
 	cache->store(nm(k),v,trig,vt::clock_base+dl);
-	std::set<int> none;
-	vt::J j; j.s("e","Store").i("k",k).i("v",id).a("ts",none).i("dl",dl).i("size",(long long)size);
+	std::set<int> tset(ts.begin(),ts.end());
+	vt::J j; j.s("e","Store").i("k",k).i("v",id).a("ts",tset).i("dl",dl).i("size",(long long)size);
 	stats(j); tr.line(j.str());
 }
 static void op_fetch(int k)
@@ -177,6 +178,31 @@ int main(int argc,char **argv)
 				else if(c<70) op_fetch(1+R(names));
 				else if(c<80) op_rise(1+R(names));
 				else if(c<87) op_remove(1+R(names));
+				else if(c<89) op_clear();
+				else op_tick(1+R(2));
+			}
+		}
+	}
+	else if(mode=="bigrand") {
+		// process-shared cache under MEMORY pressure: values up to <maxsize> bytes in a 1 MiB segment, so that a store
+		// evicts several entries, is dropped, or clears the cache; usage: cache_drv bigrand process <limit> <names> <nops> <execs> <maxsize>
+		int nops=atoi(argv[5]); int execs=atoi(argv[6]); long maxsize=atol(argv[7]);
+		process_backend=true;
+		for(int e=0;e<execs;e++) {
+			reset();
+			tr.line(vt::J().s("e","Pressure").str());       // from here on the named shared-memory deviations are legal
+			for(int n=0;n<nops;n++) {
+				unsigned c=R(100);
+				int now=(int)(vt::fake_now-vt::clock_base);
+				if(c<45) {
+					std::vector<int> ts; int cnt=R(3); for(int i=0;i<cnt;i++) ts.push_back(1+R(names));
+					int dl = now + (int)R(6) - 1; if(R(10)==0) dl = now + 1000;
+					long size = R(5)==0 ? R(200) : (R(8)==0 ? maxsize*3 : R(maxsize));
+					op_bigstore(1+R(names),dl,size,ts);
+				}
+				else if(c<75) op_fetch(1+R(names));
+				else if(c<82) op_rise(1+R(names));
+				else if(c<88) op_remove(1+R(names));
 				else if(c<89) op_clear();
 				else op_tick(1+R(2));
 			}
